@@ -118,10 +118,10 @@ func (e *Expression) Add(res fhir.Resource, name string, value fhir.Base, option
 		// and error if it would never be possible.
 		return fmt.Errorf("%w: '%v'", ErrInvalidField, name)
 	}
-	if res == nil {
+	if isNilMessage(res) {
 		return fmt.Errorf("%w: nil input resource", ErrInvalidInput)
 	}
-	if value == nil {
+	if isNilMessage(value) {
 		return fmt.Errorf("%w: nil replacement value", ErrInvalidInput)
 	}
 
@@ -300,7 +300,7 @@ func (e *Expression) newSetOneof(msg protoreflect.Message, value proto.Message) 
 //
 // See documentation: https://hl7.org/fhir/R4/fhirpatch.html#concept.
 func (e *Expression) Delete(res fhir.Resource, options ...fhirpath.EvaluateOption) error {
-	if res == nil {
+	if isNilMessage(res) {
 		return fmt.Errorf("%w: nil input resource", ErrInvalidInput)
 	}
 	ctx, evalResult, err := e.evaluate(res, options...)
@@ -373,10 +373,10 @@ func (e *Expression) tryDelete(collection system.Collection, toDelete any) error
 //
 // See documentation: https://hl7.org/fhir/R4/fhirpatch.html#concept.
 func (e *Expression) Insert(res fhir.Resource, value fhir.Base, index int, options ...fhirpath.EvaluateOption) error {
-	if res == nil {
+	if isNilMessage(res) {
 		return fmt.Errorf("%w: nil input resource", ErrInvalidInput)
 	}
-	if value == nil {
+	if isNilMessage(value) {
 		return fmt.Errorf("%w: nil value to insert", ErrInvalidInput)
 	}
 	ctx, evalResult, err := e.evaluate(res, options...)
@@ -478,10 +478,10 @@ func (e *Expression) Move(resource fhir.Resource, sourceIndex, destIndex int, op
 //
 // See documentation: https://hl7.org/fhir/R4/fhirpatch.html#concept.
 func (e *Expression) Replace(resource fhir.Resource, value fhir.Base, options ...fhirpath.EvaluateOption) error {
-	if resource == nil {
+	if isNilMessage(resource) {
 		return fmt.Errorf("%w: nil input resource", ErrInvalidInput)
 	}
-	if value == nil {
+	if isNilMessage(value) {
 		return fmt.Errorf("%w: nil replacement value", ErrInvalidInput)
 	}
 	ctx, evalResult, err := e.evaluate(resource, options...)
@@ -615,6 +615,9 @@ func (e *Expression) unwrapOneof(obj proto.Message) proto.Message {
 //
 // See documentation: https://hl7.org/fhir/R4/fhirpatch.html#concept.
 func Add(resource fhir.Resource, path, name string, value fhir.Base, opts *Options) error {
+	if opts == nil {
+		opts = &Options{}
+	}
 	expr, err := Compile(path, opts.CompileOpts...)
 	if err != nil {
 		return err
@@ -666,6 +669,12 @@ func Replace(resource fhir.Resource, path string, value fhir.Base, options ...op
 		return err
 	}
 	return expr.Replace(resource, value)
+}
+
+// isNilMessage reports whether m is nil, either as an interface or as a typed
+// nil pointer (e.g. (*dtpb.Boolean)(nil)), which protoreflect cannot store.
+func isNilMessage(m proto.Message) bool {
+	return m == nil || !m.ProtoReflect().IsValid()
 }
 
 // storeLastExpression is a simple Expression object that can be used to store
